@@ -39,15 +39,15 @@ PROPS = {
         profiles=[("life", ALL_VARIANTS), ("reserve", GUAR)],
         R={"st": [({"deposit"}, None), ({"claim", "claimPayment"}, FUNDS_MSGS)],
            "xf.lp": {"claim", "claimPayment"}, "lock": ANY},
-        D={"bal.lp": ANY, "tdep": ANY, "dep": ANY, "per": {"deposit", "claim", "claimPayment"}},
+        D={"bal.lp": ANY, "tdep": ANY, "dep": ANY, "per": {"deposit", "claim", "claimPayment"}, "views.C02": ANY},
     ),
     "C03": dict(
         title="Exactly min(T, confirmed) distinct winners",
         lean=["LP.Props.C03base", "LP.Props.C03final", "LP.Props.C01reach", "LP.Props.C01reachV2", "LP.Props.C01reachV1", "LP.Props.C01reachG1", "LP.Props.C14reach", "LP.Props.C14reachG"],
         profiles=[("life", ALL_VARIANTS), ("fy", ["base", "guarV2"]), ("chunks", GUAR), ("topup", GUAR)],
-        R={"ret": {"select", "distribute", "secondary"}},
+        R={"ret": {"select", "distribute"}},
         D={"nrw": SELECT_EPS, "status": SELECT_EPS, "cpay": SELECT_EPS, "last": SELECT_EPS, "addr.win": SELECT_EPS,
-           "views": ANY},
+           "views.C03": ANY},
     ),
     "C04": dict(
         title="Interrupted operations resume to the same result",
@@ -70,7 +70,7 @@ PROPS = {
         profiles=[("timeline", ALL_VARIANTS), ("life", ALL_VARIANTS), ("deploy", ALL_VARIANTS),
                   ("chunks", ["nft"] + GUAR)],
         R={"st": [(ANY, STAGE_MSGS), ({"deploy"}, None)]},
-        D={"cfg": ANY, "views": ANY},
+        D={"cfg": ANY, "views.C06": ANY},
     ),
     "C07": dict(
         title="Confirmation: exact payment, within allocation",
@@ -105,16 +105,16 @@ PROPS = {
         title="Guarantees honoured with the holder's own tickets",
         lean=["LP.Props.C11topup", "LP.Props.C01reachV2", "LP.Props.C01reachV1", "LP.Props.C01reachG1", "LP.Props.C14reachG"],
         profiles=[("topup", GUAR), ("life", GUAR), ("chunks", GUAR)],
-        R={"ret": {"distribute", "secondary"}},
-        D={"status": {"distribute", "secondary"}, "addr.win": {"distribute", "secondary"}},
+        R={"ret": {"distribute"}},
+        D={"status": {"distribute", "secondary"}, "addr.win": {"distribute", "secondary"}, "nrw": {"distribute", "secondary"}},
     ),
     "C12": dict(
         title="Guarantee reserve conserved; leftovers re-drawn",
         lean=["LP.Props.C12reserve", "LP.Props.C03final", "LP.Props.C01reachV2", "LP.Props.C01reachV1", "LP.Props.C01reachG1", "LP.Props.C14reachG"],
         profiles=[("reserve", GUAR), ("topup", GUAR), ("life", GUAR), ("chunks", GUAR)],
         R={"st": [(ALLOC_EPS | BL_EPS, RESERVE_MSGS), ({"deposit"}, ["Wrong amount"])],
-           "draws": {"distribute", "secondary"}},
-        D={"nrw": ALLOC_EPS | BL_EPS | {"distribute", "secondary"}, "tg": ANY, "wl": ALLOC_EPS | BL_EPS,
+           "draws": {"distribute"}},
+        D={"nrw": ALLOC_EPS | BL_EPS | {"distribute", "secondary"}, "status": {"distribute", "secondary"}, "tg": ANY, "wl": ALLOC_EPS | BL_EPS,
            "addr.uts": ALLOC_EPS | BL_EPS, "addr.bluts": BL_EPS},
     ),
     "C13": dict(
@@ -138,21 +138,21 @@ PROPS = {
         lean=["LP.Props.C15"],
         profiles=[("perm", ALL_VARIANTS), ("life", ALL_VARIANTS)],
         R={"st": (ANY, PERM_MSGS), "abi": ANY},
-        D={"sup": ANY},
+        D={"sup": ANY, "views.C15": ANY},
     ),
     "C16": dict(
         title="Locked split",
         lean=["LP.Props.C16", "LP.Props.C02reach"],
         profiles=[("life", ["locked", "lockedGuar"]), ("deploy", ["locked", "lockedGuar"])],
         R={"lock": ANY, "xf.lp": {"claim"}, "st": ({"deploy"}, None)},
-        D={"lockcfg": ANY},
+        D={"lockcfg": ANY, "views.C16": ANY},
     ),
     "C17": dict(
         title="Sale terms frozen",
         lean=["LP.Props.C17", "LP.Props.C13reachV2", "LP.Props.C14feeLp"],
         profiles=[("timeline", ALL_VARIANTS), ("life", ALL_VARIANTS), ("deploy", ALL_VARIANTS)],
         R={"st": ({"deploy", "setTicketPrice", "setPerTicket", "setNftCost", "setSchedule1", "setSchedule2"}, None)},
-        D={"price": ANY, "per": ANY, "cost": ANY, "sched": ANY, "views": ANY},
+        D={"price": ANY, "per": ANY, "cost": ANY, "sched": ANY, "views.C17": ANY},
     ),
     "C18": dict(
         title="Allocation",
@@ -166,7 +166,7 @@ PROPS = {
         lean=["LP.Props.C19", "LP.Props.C19frame"],
         profiles=[("life", ALL_VARIANTS), ("vest", ["guarV2"])],
         R={"st": [(ANY, PAUSE_MSGS), ({"pause", "unpause"}, None)]},
-        D={"paused": ANY},
+        D={"paused": ANY, "views.C19": ANY},
     ),
     "C20": dict(
         title="Events",
@@ -185,6 +185,8 @@ def _ep_ok(eps, ep):
 def relevant(pid, d):
     """does disagreement `d` (dict: kind, ep, fields, impl_msg, model_msg) concern property pid?"""
     p = PROPS[pid]
+    if d.get("root"):
+        return relevant(pid, d["root"])
     fields = d["fields"]
     if "protocol" in fields or "dump-format" in fields:
         return True
